@@ -1457,12 +1457,24 @@ M.assume('the relative paths of the files of a FilesMatcherModel are pairwise di
 # it takes from the front of the worklist (the inner loop invariant at its exit is the step contract).  That the loop
 # as a whole visits exactly the documented files is the bounded stand-in above.
 
+class DirNodeI(Interface):
+    """the directory at a path, at a time (the ghost `fs_epoch` of contracts/pathspec.py): its entries, in the order
+    os.scandir gives them -- the abstract directory tree the files-matcher models are specified against"""
+    attrs = {'entries': ListOf(DIR_ENTRY)}
+
+
+def dir_entries(interp, pid):
+    """the entries of the directory with denotation pid NOW: a function of (time, path)"""
+    node = new_opaque(interp, DirNodeI, 'fs.dir', index=(pathspec._epoch(interp), to_z3(pid)))
+    return interp.getattr(node, 'entries')
+
+
 def _scandir(interp, args, kwargs):
     """os.scandir(d): some sequence of entries, or OSError.  Snapshot for the step contract: the number of items
     yielded and the length of the worklist when the scan of a directory starts."""
     if interp.st.choose(2) == 1:
         raise PyRaise(OSError('scandir'))
-    entries = ListOf(DIR_ENTRY).make(interp, 'scandir')
+    entries = dir_entries(interp, pathspec.pid_of(interp, args[0]))
     snap = {'y0': wrap(interp.collect[1].length) if interp.collect is not None else 0}
     for fr in reversed(interp.frame_stack):
         if 'remaining_dirs' in fr.locals:
@@ -1542,7 +1554,7 @@ def _prune_matches_w_trace(interp, self, args, kwargs):
     to); it may be defined for directories only (dir-contents ...): HardErrorException is a possible outcome"""
     model = args[0]
     entry = model._file_type_access._dir_entry if isinstance(model, models._FileMatcherModel) else None
-    src = wrap(entry._pv_index[0]) if entry is not None and entry._pv_index else -1
+    src = wrap(entry._pv_index[-1]) if entry is not None and entry._pv_index else -1
     _log_append(interp, 'applied', src=src, fid=_fid_of(interp, [model], {}))
     # (a HardErrorException of a partial matcher leaves `generate` at once -- an allowed outcome on which nothing is
     # claimed -- so that outcome is not explored here)
@@ -1592,15 +1604,128 @@ def entry_is_directory(e):
     return e.dir_flag
 
 
+# ---- the walk as a whole against the abstract directory tree (extension F15): WHICH directories are scanned
+# The documented set of directories whose contents are looked at is the LEAST set closed under
+#   (R0) the root directory, at depth 0;
+#   (R1) an entry of a directory of the set at depth d != max that is a directory (symbolic links followed) and is not
+#        pruned: root/.../NAME at depth d + 1.
+# `in_walk` is an ARBITRARY predicate (uninterpreted) that is closed under R0 and R1 -- the hypothesis `closed_under_the_
+# rules` is a precondition on this ghost, not on the code or its environment (the constant-true predicate satisfies it).
+# What is proved for every closed predicate holds for the least one: every directory the generator ever scans belongs
+# to the documented set.  With the step contract (what ONE scan yields and queues) that is the soundness half of "the
+# files generated are the files at depth [min, max] not below a pruned directory".
+
+def _in_walk(interp, args, kwargs):
+    a, dp = args
+    return wrap(z3.Function('tree.in_walk', z3.IntSort(), z3.IntSort(), z3.BoolSort())(to_z3(a), to_z3(dp)))
+
+
+def in_walk(a, depth):
+    """the directory with (absolute) denotation a, at depth `depth`, is one whose contents the walk looks at"""
+    raise NotImplementedError('proof-level only')
+
+
+M.model(in_walk, _in_walk)
+
+
+def entries_at(a):
+    """the entries of the directory with denotation a, as os.scandir gives them now (proof level)"""
+    raise NotImplementedError('proof-level only')
+
+
+M.model(entries_at, lambda interp, args, kwargs: dir_entries(interp, args[0]))
+
+
+def pruned_by(prune, fid):
+    if prune is None:
+        return False
+    return accepts(prune, fid)
+
+
+def _at_max_term(self, d):
+    md = self._max_depth
+    if md is None:
+        return z3.BoolVal(False)
+    if isinstance(md, SOpt):
+        return z3.And(z3.Not(md.is_none), d == to_z3(md.val))
+    return d == to_z3(md)
+
+
+def _closed_under_the_rules(interp, args, kwargs):
+    """R0, and R1 as ONE universally quantified fact over (directory a, depth, entry index j):
+        in_walk(a, depth), depth >= 0, depth is not the maximum, entry j of a is a directory and is not pruned
+        ==>  in_walk(a / NAME-OF-ENTRY-j, depth + 1)
+    with the pattern {in_walk(a, depth), name of entry j of a}: instantiated by matching only"""
+    from pyvc.models import slist_elem
+    self, root, prune = args
+    st = interp.st
+    if isinstance(prune, SOpt):
+        prune = interp.resolve(prune)           # (the code makes the same case distinction first thing)
+    a, d, j = st.fresh_int('walk.a'), st.fresh_int('walk.depth'), st.fresh_int('walk.j')
+    n_dec = len(st.decisions)
+    es = dir_entries(interp, SInt(a))
+    e = slist_elem(interp, es, j)
+    name = interp.getattr(e, 'name')
+    fid = interp.getattr(e, 'fid')
+    walk = lambda x, y: to_z3(_in_walk(interp, [x, y], {}))
+    prem = z3.And(walk(SInt(a), SInt(d)), d >= 0, z3.Not(_at_max_term(self, d)),
+                  j >= 0, j < es.length, to_z3(interp.getattr(e, 'dir_flag')),
+                  z3.Not(to_z3(interp.truth(interp.call(pruned_by, [prune, fid], {})))))
+    child = pathspec._m_join0(interp, [SInt(a), pathspec._m_P0(interp, [name], {})], {})
+    concl = walk(child, SInt(d + 1))
+    if len(st.decisions) != n_dec:
+        from pyvc.path import Unsupported
+        raise Unsupported('closed_under_the_rules: case split in the rule')
+    r0 = walk(pathspec.pid_of(interp, interp.getattr(root, 'primitive')), 0)
+    pat = z3.MultiPattern(walk(SInt(a), SInt(d)), to_z3(name))
+    r1 = z3.ForAll([a, d, j], z3.Implies(prem, concl), patterns=[pat])
+    return wrap(z3.And(r0, r1))
+
+
+def closed_under_the_rules(self, root, prune):
+    raise NotImplementedError('proof-level only')
+
+
+M.model(closed_under_the_rules, _closed_under_the_rules)
+
+
+def waiting_are_in_the_walk(q):
+    """every directory waiting to be scanned is one of the documented set"""
+    return forall_range(0, len(q), lambda k: in_walk(den(q[k]._absolute_parent.primitive), q[k].depth))
+
+
+def breadth_first(q):
+    """the worklist is sorted by depth and spans at most two levels (directories are taken from the front, their
+    sub directories -- one level deeper -- are put at the back): shallower directories are scanned first"""
+    return forall_range(0, len(q) - 1, lambda k: q[k].depth <= q[k + 1].depth) \
+        and (len(q) == 0 or q[len(q) - 1].depth <= q[0].depth + 1)
+
+
+def breadth_first_during_scan(cur, q):
+    """while `cur` (taken from the front) is scanned: everything waiting is at its level or one below, sorted"""
+    return forall_range(0, len(q) - 1, lambda k: q[k].depth <= q[k + 1].depth) \
+        and forall_range(0, len(q), lambda k: cur.depth <= q[k].depth and q[k].depth <= cur.depth + 1)
+
+
+# The `walk` conjuncts are ON.  OFF: the `bfs` conjuncts -- with them `generate` (44 paths) does not finish within 8 minutes
+# (extension F15; see notes/C15.md).  C15_WALK=bfs | walk | both switches them on for experiments.
+_WALK = os.environ.get('C15_WALK', 'walk')
+_WALK_PROOF = _WALK in ('walk', 'both')
+_BFS_PROOF = _WALK in ('bfs', 'both')
+
 M.contract(P_MODELS + ':_FilesGeneratorForRecursive.generate',
            params=dict(self=GENERATOR, root_dir_path=DESCRIBED_PATH, directory_prune=Opt(Iface(PruneMatcherI))),
+           requires=(lambda self, root_dir_path, directory_prune:
+                     closed_under_the_rules(self, root_dir_path, directory_prune)) if _WALK_PROOF else None,
            yields=ListOf(Iface(FileModelI)),
            # os.scandir failing is NOT translated (only is_dir() is): an OSError may escape, see notes/C15.md
            may_raise=(HardErrorException, OSError),
            ensures={'terminates with an empty worklist': lambda yielded: len(yielded) >= 0},
            raises_only=())
 M.loop(P_MODELS + ':_FilesGeneratorForRecursive.generate', 0,
-       invariant=lambda self, remaining_dirs: worklist_ok(self, remaining_dirs),
+       invariant=lambda self, remaining_dirs: worklist_ok(self, remaining_dirs)
+       and ((not _BFS_PROOF) or breadth_first(remaining_dirs))
+       and ((not _WALK_PROOF) or waiting_are_in_the_walk(remaining_dirs)),
        modifies={'remaining_dirs': _WORKLIST, 'yielded': 'len', 'current_file': 'local',
                  'is_within_min_depth_limit': 'local', 'is_not_at_max_depth': 'local', 'dir_entry': 'local',
                  'current_file_model': 'local', 'ghost:applied': Custom(_mk_log)})
@@ -1614,7 +1739,10 @@ M.loop(P_MODELS + ':_FilesGeneratorForRecursive.generate', 1,
        and step(self, current_file, _xs, _i, remaining_dirs, yielded)
        and (at_max(self, current_file.depth)
             or queued_are_the_unpruned_directories(current_file, directory_prune, _xs, _i, remaining_dirs))
-       and pruning_matcher_applied_to_directories_only(self, current_file, directory_prune, _xs, _i),
+       and pruning_matcher_applied_to_directories_only(self, current_file, directory_prune, _xs, _i)
+       and ((not _BFS_PROOF) or breadth_first_during_scan(current_file, remaining_dirs))
+       and ((not _WALK_PROOF) or (in_walk(den(current_file._absolute_parent.primitive), current_file.depth)
+                                  and waiting_are_in_the_walk(remaining_dirs))),
        modifies={'remaining_dirs': _WORKLIST, 'yielded': 'len', 'dir_entry': 'local', 'current_file_model': 'local',
                  'ghost:applied': Custom(_mk_log)})
 
